@@ -2,6 +2,7 @@
 import json, os, re
 from . import common as C
 from . import seqsuite as S
+from . import rustcsuite as RS
 
 TRUSTED_COMMON = [
     "Lean 4.33.0 kernel; axioms per theorem listed under coverage.theorems (only propext, Classical.choice, Quot.sound accepted)",
@@ -38,6 +39,12 @@ THEOREMS["C19"] = [("Flurry.Props.C19", [
     "Flurry.C19.deserialize_total", "Flurry.C19.set_policy_no_failure", "Flurry.C19.deserializeFrom_lastWins",
     "Flurry.C19.roundtrip", "Flurry.C19.roundtrip_current", "Flurry.C19.lookup_insertAll",
     "Flurry.C19.par_extend_any_order"])]
+
+THEOREMS["C16"] = [("Flurry.Props.C16", [
+    "Flurry.C16.results_tied_collections", "Flurry.C16.results_tied_wrappers", "Flurry.C16.fields_tied",
+    "Flurry.C16.items_tied", "Flurry.C16.no_static_bound", "Flurry.C16.use_after_release_rejected"])]
+THEOREMS["C17"] = [("Flurry.Props.C17", [
+    "Flurry.C17.inserting_needs_send_sync", "Flurry.C17.lookup_unbounded", "Flurry.C17.binentry_conditional"])]
 
 TIERS = {
     "quick": {"seq_cases": 400, "seq_ops": 60, "search_mult": 6},
@@ -321,7 +328,138 @@ def check_C19(R):
                   "samples": samples[:3], **total})
 
 
+def check_C16(R):
+    R.trusted = TRUSTED_COMMON + ["rustc as the arbiter of borrow errors", "the lifetime mini-model of Props/C16.lean (a result keeps every argument borrowed whose reference lifetime occurs in its type), validated against rustc on the generated corpus only",
+                                  "the elision resolution of extract/src/api.rs"]
+    R.assumptions = ["programs are compiled with --emit=metadata against the crate built from /repo with features serde,rayon and hooks off"]
+    translator_step(R)
+    ok = lean_step(R, "C16")
+    model = {}
+    out = lean_eval(["Flurry.SigDefs", "Flurry.Gen.Api"] + (["Flurry.Props.C16"] if ok else []),
+                    ("open Flurry.Sig Flurry.Gen Flurry.C16 in\n#eval (apiFns.map fun f => s!\"ROW|{f.ty}::{f.fn}|{f.trait_}|{rejected f .map}|{rejected f .guard}\") |>.forM IO.println\n") if ok else "")
+    for l in out.splitlines():
+        if l.startswith("ROW|"):
+            _, key, tr, rm, rg = l.split("|")
+            if not tr or tr == "IntoIterator":
+                model.setdefault(key, (rm == "true", rg == "true"))
+    if not ok:
+        bad = lean_eval(["Flurry.SigDefs", "Flurry.Gen.Api"],
+                        "open Flurry.Sig Flurry.Gen in\n#eval (apiFns.filter fun f => f.retBorrows && (f.ty == \"HashMap\" || f.ty == \"HashSet\") && f.selfKind != \"none\" && f.selfKind != \"assoc\" && !(match f.selfLt with | some l => f.retLts.all (· == l) && f.guardLts.all (fun g => f.retLts.all (· == g)) && !f.retLts.isEmpty | none => false)).map (fun f => (f.ty, f.fn, f.selfLt, f.guardLts, f.retLts))\n")
+        R.add_broken("Lean: result lifetimes not tied to self and guard for: " + " ".join(l for l in bad.splitlines() if l.startswith("[")))
+    env, bout = RS.build_crate()
+    if env is None:
+        R.add_broken("the crate no longer builds with features serde,rayon: " + bout[-400:])
+        return
+    rows = RS.load_api()
+    progs = RS.run_programs(RS.c16_programs(rows), env)
+    by_key = {}
+    for p in progs:
+        by_key.setdefault(p["key"], []).append(p)
+    evaluated, ungenerated, distinct, samples = 0, [], set(), []
+    for key, ps in sorted(by_key.items()):
+        if any(p["kind"] == "ungenerated" for p in ps):
+            ungenerated.append(key)
+            continue
+        pos = [p for p in ps if p["kind"] == "pos"]
+        if any(not p["result"]["ok"] for p in pos):
+            bad = [p for p in pos if not p["result"]["ok"]][0]
+            if key.startswith("non-static"):
+                R.add_failing("a program with non-'static keys/values/lookup keys is rejected by rustc (%s): %s" % (key, bad["result"]["msgs"][:1]), {"suite": "rustc", "program": bad["src"], "rustc": bad["result"]})
+            elif key.endswith("::Item"):
+                R.add_failing("items yielded by %s cannot be used after the iterator is dropped: %s" % (key, bad["result"]["msgs"][:1]), {"suite": "rustc", "program": bad["src"], "rustc": bad["result"]})
+            else:
+                ungenerated.append(key + " (positive program does not compile: %s)" % bad["result"]["codes"][:2])
+            continue
+        for p in ps:
+            if p["kind"] != "neg":
+                continue
+            evaluated += 1
+            distinct.add((key, p["release"]))
+            r = p["result"]
+            if r["ok"]:
+                R.add_failing("rustc ACCEPTS a program that uses the result of %s after releasing the %s" % (key, p["release"]),
+                              {"suite": "rustc", "program": p["src"]})
+            elif not (set(r["codes"]) & RS.BORROW_CODES):
+                R.add_broken("correspondence rustc-vs-mini-model: the negative program for %s/%s fails with %s, not a borrow error" % (key, p["release"], r["codes"][:3]))
+            if len(samples) < 2 and not r["ok"]:
+                samples.append({"method": key, "released": p["release"], "rustc_error_codes": r["codes"][:2], "program": p["src"][-260:]})
+            # model verdict
+            if key in model and p["release"] in ("map", "guard", "guard-refresh", "wrapper"):
+                if key.split("::")[0] in ("HashMapRef", "HashSetRef"):
+                    # through the wrapper: the result borrows the wrapper, the wrapper (made by
+                    # with_guard) borrows the map and the guard
+                    wg = model.get(key.split("::")[0].replace("Ref", "") + "::with_guard", (False, False))
+                    mv = model[key][0] and {"wrapper": True, "map": wg[0], "guard": wg[1], "guard-refresh": wg[1]}[p["release"]]
+                else:
+                    mv = model[key][0] if p["release"] == "map" else model[key][1]
+                if mv != (not r["ok"]):
+                    R.add_broken("correspondence rustc-vs-mini-model: %s released %s: model says %s, rustc %s" % (key, p["release"], "rejected" if mv else "accepted", "accepted" if r["ok"] else "rejected"))
+    R.cov.update({"evaluations": len([p for p in progs if p["kind"] != "ungenerated"]), "distinct_nontrivial": len(distinct),
+                  "rule": "for every public method whose result borrows (from the regenerated signature table): one positive program and one negative program per thing released (guard dropped, guard refreshed, map dropped, wrapper dropped) compiled with rustc --emit=metadata; negatives must fail with a borrow error code (E0505/E0502/E0499/E0597/E0716/E0506/E0503); non-trivial = a negative program; distinct by (method, released object)",
+                  "samples": samples, "negative_programs": evaluated, "methods_without_program": ungenerated, "exhaustive": True,
+                  "api_rows": len(rows)})
+
+
+def check_C17(R):
+    R.trusted = TRUSTED_COMMON + ["rustc as the arbiter of trait-bound errors", "classification of 'inserting entry point' from the signature (Props/C17.lean: by-value K/V/T parameter, closure returning Option<V>, or a bulk trait)"]
+    translator_step(R)
+    ok = lean_step(R, "C17")
+    out = lean_eval(["Flurry.SigDefs", "Flurry.Gen.Api"] + (["Flurry.Props.C17"] if True else []),
+                    "open Flurry.Sig Flurry.Gen Flurry.C17 in\n#eval (apiFns.filter inserting).map (fun f => s!\"INS|{f.ty}::{if f.trait_ == \"\" then f.fn else f.trait_}|{sendSync f}\") |>.forM IO.println\n")
+    ins = {}
+    for l in out.splitlines():
+        if l.startswith("INS|"):
+            _, key, ss = l.split("|")
+            ins[key] = ins.get(key, True) and ss == "true"
+    if not ok:
+        R.add_broken("Lean: inserting entry points without Send+Sync on keys and values: %s" % sorted(k for k, v in ins.items() if not v))
+    env, bout = RS.build_crate()
+    if env is None:
+        R.add_broken("the crate no longer builds with features serde,rayon: " + bout[-400:])
+        return
+    rows = RS.load_api()
+    progs = RS.run_programs(RS.c17_programs(rows, set(ins)), env)
+    by_key = {}
+    for p in progs:
+        by_key.setdefault(p["key"], []).append(p)
+    ungenerated, distinct, samples, neg = [], set(), [], 0
+    for key, ps in sorted(by_key.items()):
+        if any(p["kind"] == "ungenerated" for p in ps):
+            ungenerated.append(key)
+            continue
+        pos = [p for p in ps if p["kind"] == "pos"]
+        if any(not p["result"]["ok"] for p in pos):
+            bad = [p for p in pos if not p["result"]["ok"]][0]
+            if key == "lookup-unbounded":
+                R.add_failing("lookups/iteration over non-thread-safe key and value types are rejected by rustc: %s" % bad["result"]["msgs"][:1], {"suite": "rustc", "program": bad["src"], "rustc": bad["result"]})
+            else:
+                ungenerated.append(key + " (positive program does not compile: %s %s)" % (bad["result"]["codes"][:2], bad["result"]["msgs"][:1]))
+            continue
+        for p in ps:
+            if p["kind"] != "neg":
+                continue
+            neg += 1
+            distinct.add((key, p["slot"], p["probe"]))
+            r = p["result"]
+            what = "%s with a %s %s type" % (key, {"NoSend": "!Send", "NoSync": "!Sync", "Neither": "!Send + !Sync"}[p["probe"]], {"KT": "key", "VT": "value", "ET": "element"}[p["slot"]])
+            if r["ok"]:
+                R.add_failing("rustc ACCEPTS " + what, {"suite": "rustc", "program": p["src"]})
+            else:
+                text = " ".join(r["msgs"])
+                text = text + " " + r.get("rendered", "")
+                if not (set(r["codes"]) & {"E0277", "E0599"}) or not re.search(r"\b(Send|Sync)\b|sent between threads|shared between threads", text):
+                    R.add_broken("correspondence rustc-vs-table: the negative program for %s fails with %s (%s), not a Send/Sync bound error" % (what, r["codes"][:3], text[:120]))
+            if len(samples) < 2 and not r["ok"]:
+                samples.append({"entry_point": key, "probe": p["probe"], "slot": p["slot"], "rustc_error_codes": r["codes"][:2], "message": (r["msgs"] or [""])[0][:160]})
+    R.cov.update({"evaluations": len([p for p in progs if p["kind"] != "ungenerated"]), "distinct_nontrivial": len(distinct),
+                  "rule": "for every inserting entry point of the regenerated signature table: a positive program (thread-safe types) and negative programs with the key / value / element type replaced by a !Send, a !Sync and a !Send+!Sync probe type (rayon paths: the !Sync probe, since rayon itself demands Send); negatives must fail with E0277 naming Send/Sync; plus one positive program using every lookup/iteration method on !Send+!Sync types",
+                  "samples": samples, "negative_programs": neg, "entry_points_without_program": ungenerated,
+                  "inserting_entry_points": sorted(ins), "exhaustive": True})
+
+
 CHECKS = {
+    "C16": check_C16,
+    "C17": check_C17,
     "C06": check_C06,
     "C19": check_C19,
     "C09": check_C09,
